@@ -127,4 +127,46 @@ theorem tie_plugin_rsv_handler :
       "OnUpdate:(IsReservationFailed() || IsReservationSucceeded()) => updateReservationIfExists",
       "OnDelete:always => updateReservationIfExists"] := by decide
 
+/-! ### roll-back of a cycle (plugin.go Unreserve / PreBind / Reserve of a reserve pod; round 4) -/
+
+/-- Plugin.Unreserve, normal-pod part (after the reserve-pod branch), statement ORDER: ignored pod -> nothing assumed
+    -> forgetPods -> ONLY THEN the `!state.hasReservationAllocated` return -> the annotation clean-up loop (seeded
+    change round 4 hoisted that return above forgetPods).  Plugin.PreBind: reserve / ignored pod -> nothing assumed
+    -> `state.hasReservationAllocated = true` -> SetReservationAllocated. -/
+theorem tie_unreserve_normal_order :
+    C05.unreserveNormalOrder = ["IsReservationIgnored():return", "(.assumed == nil):return", "call:forgetPods",
+      "!.hasReservationAllocated:return", "range:unreservePod"] ∧
+    C05.preBindOrder = ["(IsReservePod() || IsReservationIgnored()):return", "(.assumed == nil):return",
+      "set:_.hasReservationAllocated=true", "call:SetReservationAllocated"] := by decide
+
+/-- the model has that order: the flag does not influence the cache -/
+theorem tie_unreserve_normal_model (c : Cache) (assumed : Nat) (hasAlloc : Bool) (pu : Nat) :
+    unreservePodM c assumed hasAlloc pu = (if assumed == 0 then c else deletePods c assumed [pu]) ∧
+    (preBindM assumed false).2.2 = (assumed != 0) := by
+  constructor
+  · simp [unreservePodM, unreserveG]
+  · unfold preBindM; by_cases h : assumed = 0 <;> simp [h]
+
+/-- Plugin.Unreserve, reserve-pod branch: lister miss -> stub with UID = pod.UID (#2) and Status.NodeName = nodeName
+    (#3); lister hit -> DeepCopy, then `Status.NodeName = nodeName` (seeded change round 4 dropped both), THEN
+    forgetReservation, then the pre-allocation guard.  Plugin.Reserve, reserve-pod branch: lister error -> return;
+    DeepCopy; `Status.NodeName = nodeName`; assumeReservation; not pre-allocation -> return.  The cache aliases are
+    one-liners; DeleteReservation cleans reservationsOnNode under the node name of the PASSED object. -/
+theorem tie_unreserve_rsv_branch :
+    C05.unreserveRsvBranch.take 6 = ["stub:UID=#2.UID", "stub:NodeName=#3", "else:_=_.DeepCopy()",
+      "else:_.Status.NodeName=#3", "call:forgetReservation", "(len() == 0):return"] ∧
+    C05.reserveRsvBranch = ["(_ != nil):return", "_=_.DeepCopy()", "_.Status.NodeName=#3", "call:assumeReservation",
+      "!IsReservePodPreAllocation():return"] ∧
+    C05.cacheAliases = ["assumeReservation=updateReservation(#0)", "forgetReservation=DeleteReservation(#0)",
+      "assumePods=addPods(#0,#1)", "forgetPods=deletePods(#0,#1)"] ∧
+    C05.deleteKeyedBy = "deleteReservationOnNode(#0.Status.NodeName,#0.UID)" := by decide
+
+/-- the model's reserve-pod branch is that: delete by (uid of the object / of the pod, the cycle's node) -/
+theorem tie_unreserve_rsv_model (c : Cache) (listed : Option RObj) (pu n : Nat) :
+    unreserveRsvM c listed pu n = deleteReservation c (match listed with | some o => o.uid | none => pu) n ∧
+    (∀ o : RObj, reserveRsvM c (some o) n = (updateReservation c { o with node := n }, 0)) ∧
+    reserveRsvM c none n = (c, 3) := by
+  refine ⟨?_, fun _ => rfl, rfl⟩
+  cases listed <;> simp [unreserveRsvM, unreserveRsvG]
+
 end KoordVerif.C05
